@@ -11,6 +11,8 @@ DelaysSim  == {2, 4, -2, 1, 0}
 GainsAll   == {1, 2, -1}
 BuffersSmall == {None, 0, 2}
 BuffersSim == {None, 0, 1, 2, 3, 5}
+GridsOne == {<<0, 2, 4, 6>>}
+BuffersAlias == {None, 2, 4}
 LevelBound == TLCGet("level") <= 5
 LevelBoundG == TLCGet("level") <= 4
 ====
